@@ -82,39 +82,57 @@ Definition C11_onecore_shipped_table_insufficient_stmt : Prop :=
 
 (** ** geometry (all placements and sizes) *)
 
-(** extruded disk family: for every centre c, radius vector u, unit normal n with u.n = 0, u <> 0 and
-    every height h > 0, all corner Jacobians of all blocks are positive and every outer point lies on
-    the circle of radius |u| about c in the plane through c normal to n *)
+(** blocks lofted from the four-core disk to its copy moved by h along the unit normal n and scaled by
+    rho about its centre (Cylinder: rho = 1; Frustum: rho = r2 / r1): for every centre c, radius vector
+    u with u.n = 0, u <> 0, every height h > 0 and ratio rho > 0, the Jacobians at all eight corners of
+    all twelve blocks are positive *)
 Definition C11_disk_jacobian_stmt : Prop :=
-  forall (cr dr : R) (c u n : vec) (h : R),
-    (0 < cr)%R -> (0 < dr)%R ->
-    norm2 n = 1%R -> dot u n = 0%R -> (0 < norm2 u)%R -> (0 < h)%R ->
+  forall (cr dr : R) (c u n : vec) (h rho : R),
+    norm2 n = 1%R -> dot u n = 0%R -> (0 < norm2 u)%R -> (0 < h)%R -> (0 < rho)%R ->
     disk_ratios_ok cr dr ->
     forall q, In q four_core_quads -> forall k, k < 4 ->
-      (0 < corner_jacobian (disk_point cr dr c u n) (vscale h n) q k)%R.
+      (0 < corner_jacobian_bot (disk_point cr dr c u n) (top_pt c (vscale h n) rho) q k)%R
+      /\ (0 < corner_jacobian_top (disk_point cr dr c u n) (top_pt c (vscale h n) rho) q k)%R.
 
+(** every outer point lies on the circle of radius |u| about c in the plane through c normal to n, and
+    its image in the end sketch on the circle of radius rho |u| about c + h n *)
 Definition C11_disk_on_circle_stmt : Prop :=
-  forall (cr dr : R) (c u n : vec), norm2 n = 1%R -> dot u n = 0%R ->
+  forall (cr dr : R) (c u n : vec) (h rho : R), norm2 n = 1%R -> dot u n = 0%R ->
     forall k, 9 <= k <= 16 ->
-      norm2 (vsub (disk_point cr dr c u n k) c) = norm2 u /\ dot (vsub (disk_point cr dr c u n k) c) n = 0%R.
+      let p := disk_point cr dr c u n k in
+      let p' := top_pt c (vscale h n) rho p in
+      norm2 (vsub p c) = norm2 u /\ dot (vsub p c) n = 0%R
+      /\ norm2 (vsub p' (vadd c (vscale h n))) = (rho * rho * norm2 u)%R /\ dot (vsub p' (vadd c (vscale h n))) n = 0%R.
 
-(** extruded ring with any number of segments >= 3, any radii 0 < ri < ro *)
+(** the same for the ring with any number of segments >= 3, any radii 0 < ri < ro *)
 Definition C11_ring_jacobian_stmt : Prop :=
-  forall (nseg : nat) (ri ro : R) (c u n : vec) (h : R),
+  forall (nseg : nat) (ri ro : R) (c u n : vec) (h rho : R),
     3 <= nseg -> (0 < ri < ro)%R ->
-    norm2 n = 1%R -> dot u n = 0%R -> norm2 u = 1%R -> (0 < h)%R ->
+    norm2 n = 1%R -> dot u n = 0%R -> norm2 u = 1%R -> (0 < h)%R -> (0 < rho)%R ->
     forall i k, k < 4 ->
-      (0 < corner_jacobian (ring_point nseg ri ro c u n) (vscale h n) (ring_quad i) k)%R.
+      (0 < corner_jacobian_bot (ring_point nseg ri ro c u n) (top_pt c (vscale h n) rho) (ring_quad i) k)%R
+      /\ (0 < corner_jacobian_top (ring_point nseg ri ro c u n) (top_pt c (vscale h n) rho) (ring_quad i) k)%R.
 
 (** The full geometric statement of the property -- positive corner Jacobians for EVERY class of the
-    catalogue at every valid placement -- has no formal model here for Frustum, Elbow, RevolvedRing,
-    Hemisphere, Shell, the joints, the spline sketches and the half/quarter/one-core/wrapped/oval
-    disks; for those it is validated by the direct oracle only.  The proved part is
-    [C11_jacobian_partial] below. *)
+    catalogue at every valid placement -- has no formal model here for Elbow, RevolvedRing, Hemisphere,
+    Shell, the joints, the spline sketches and the one-core/wrapped/oval disks; for those it is
+    validated by the direct oracle only.  The proved part is [C11_jacobian_partial] below. *)
 Definition C11_jacobian_partial_stmt : Prop := C11_disk_jacobian_stmt /\ C11_ring_jacobian_stmt.
 
 (** the runtime values of core_ratio and diagonal_ratio lie in the region the theorem needs *)
 Definition C11_disk_ratios_stmt : Prop := disk_ratios_ok tab_core_ratio tab_diagonal_ratio.
+
+(** the quad maps the library uses for FourCoreDisk, HalfDisk (SemiCylinder) and QuarterDisk are, in the
+    four-core numbering, quads about which the geometric theorems are proved *)
+Definition disk_embedding (n : sketch_name) : option (nat -> nat) :=
+  match n with
+  | FourCoreDisk => Some (fun k => k) | HalfDisk => Some half_emb | QuarterDisk => Some quarter_emb
+  | _ => None
+  end.
+Definition C11_disk_family_quads_tied_stmt : Prop :=
+  forall n sd quads grid chops npts, In (n, sd, quads, grid, chops, npts) tab_sketches ->
+    (n = FourCoreDisk -> quads = four_core_quads)
+    /\ forall e, disk_embedding n = Some e -> forall q, In q quads -> In (map e q) four_core_quads.
 
 (** ** proofs *)
 
@@ -189,16 +207,25 @@ Proof.
 Qed.
 
 Theorem C11_disk_jacobian : C11_disk_jacobian_stmt.
-Proof. exact disk_jacobian_pos. Qed.
+Proof. exact frustum_disk_jacobian_pos. Qed.
 
 Theorem C11_disk_on_circle : C11_disk_on_circle_stmt.
-Proof. exact disk_outer_on_circle. Qed.
+Proof.
+  intros cr dr c u n h rho Hn Hu k Hk p p'.
+  destruct (disk_outer_on_circle cr dr c u n Hn Hu k Hk) as [E1 E2].
+  split; [exact E1|]. split; [exact E2|].
+  unfold p', p, disk_point.
+  destruct (top_pt_offset c u n (fst (disk_xy cr dr k)) (snd (disk_xy cr dr k)) h rho Hn Hu) as [T1 T2].
+  split; [|exact T2]. rewrite T1.
+  destruct (plane_pt_offset c u n (fst (disk_xy cr dr k)) (snd (disk_xy cr dr k)) Hn Hu) as [F1 _].
+  unfold disk_point in E1. rewrite <- F1, E1. reflexivity.
+Qed.
 
 Theorem C11_ring_jacobian : C11_ring_jacobian_stmt.
-Proof. exact ring_jacobian_pos. Qed.
+Proof. exact ring_all_jacobian_pos. Qed.
 
 Theorem C11_jacobian_partial : C11_jacobian_partial_stmt.
-Proof. split; [exact disk_jacobian_pos | exact ring_jacobian_pos]. Qed.
+Proof. split; [exact frustum_disk_jacobian_pos | exact ring_all_jacobian_pos]. Qed.
 
 Theorem C11_disk_ratios : C11_disk_ratios_stmt.
 Proof.
@@ -207,16 +234,21 @@ Proof.
       let n := eval vm_compute in (Pos.to_nat p) in change (Pos.to_nat p) with n end; lra.
 Qed.
 
-(** the quad maps about which the geometric theorems are proved are the ones the library uses *)
-Theorem C11_geom_quads_tied :
-  forall n sd quads grid chops npts, In (n, sd, quads, grid, chops, npts) tab_sketches ->
-    n = FourCoreDisk -> quads = four_core_quads.
+Theorem C11_disk_family_quads_tied : C11_disk_family_quads_tied_stmt.
 Proof.
   finite_forall tab_sketches (fun x : sketch_name * bool * list (list nat) * list (list nat) * list (list nat) * nat =>
     let '(n, sd, quads, grid, chops, npts) := x in
-    match n with FourCoreDisk => quads_eqb quads four_core_quads | _ => true end).
-  intros n sd quads grid chops npts Hin Hn. specialize (H _ Hin). simpl in H. subst n.
-  apply quads_eqb_eq. exact H.
+    match n with FourCoreDisk => quads_eqb quads four_core_quads | _ => true end
+    && match disk_embedding n with
+       | Some e => forallb (fun q => existsb (fun r => quads_eqb [map e q] [r]) four_core_quads) quads
+       | None => true
+       end).
+  intros n sd quads grid chops npts Hin. specialize (H _ Hin). cbv beta iota in H.
+  apply andb_true_iff in H. destruct H as [H1 H2]. split.
+  - intro Hn. subst n. apply quads_eqb_eq. exact H1.
+  - intros e He q Hq. rewrite He in H2. rewrite forallb_forall in H2. specialize (H2 _ Hq).
+    apply existsb_exists in H2. destruct H2 as [r [Hr E]]. apply quads_eqb_eq in E.
+    injection E as E. rewrite E. exact Hr.
 Qed.
 
 Print Assumptions C11_conformal.
@@ -232,4 +264,4 @@ Print Assumptions C11_disk_on_circle.
 Print Assumptions C11_ring_jacobian.
 Print Assumptions C11_jacobian_partial.
 Print Assumptions C11_disk_ratios.
-Print Assumptions C11_geom_quads_tied.
+Print Assumptions C11_disk_family_quads_tied.
